@@ -25,6 +25,7 @@ def gen_history(rng, cfg, nlisteners, polite):
     half = set()
     gated = set()
     cap = cfg["worker_connections"]
+    phantoms = rng.random() < 0.4
     for _ in range(n):
         k = rng.random()
         if k < 0.25:
@@ -57,6 +58,9 @@ def gen_history(rng, cfg, nlisteners, polite):
             cid = rng.choice(sorted(gated))
             steps.append(("release", cid))
             gated.discard(cid)
+        elif k < 0.64 and phantoms:
+            # another worker on the same listening socket wins the race for a connection
+            steps.append(("phantom", rng.randrange(nlisteners)))
         elif k < 0.85:
             steps.append(("time", rng.choice([0.3, 0.7, 1.0, 1.0, 2.5, 3.0])))
         elif connected:
@@ -120,7 +124,7 @@ def run_case(run, e5, case):
 def enum_histories(maxlen):
     """All histories up to maxlen steps over a small alphabet for threads=1, worker_connections=2, keepalive=1, two clients."""
     alpha = [("connect", 0), ("connect", 1), ("send", 0, "ka"), ("send", 1, "ka"), ("send", 0, "close"), ("send", 1, "half"),
-             ("send", 1, "rest"), ("time", 0.7), ("time", 1.5), ("disconnect", 0), ("disconnect", 1)]
+             ("send", 1, "rest"), ("time", 0.7), ("time", 1.5), ("disconnect", 0), ("disconnect", 1), ("phantom", 0)]
     out = [[]]
     frontier = [[]]
     for _ in range(maxlen):
@@ -191,7 +195,7 @@ def main(tier, seed):
     run = Run(PROP, tier, seed, "exploration", RULE)
     run.require("histories", "enumerated_histories", "selects", "accepted_connections", "handler_finished_keepalive",
                 "handler_finished_close", "keepalive_expiries_observed", "histories_reaching_capacity", "drain_checks",
-                "pool_thread_lock_delays",
+                "pool_thread_lock_delays", "accept_eagain_after_readable", "keepalive_share_checks", "keepalive_grant_checks",
                 "aux_nr_conns_agrees")
     q = tier == "quick"
     shards = [{"kind": "random", "n": 1500 if q else 20000, "sub": i, "seed": seed, "tier": tier} for i in range(16 if q else 32)]
